@@ -13,7 +13,8 @@ TRANSLATE = ["tables"]
 RULE = ("scenario grid: every scatter parameter (lambda_mst, lambda_ifu, a_ani, beta_inf, gamma_in, log_m2l, "
         "global gamma_pl, sigma_sne, LOS Gaussian/GEV) x lens flagging that makes it applicable or not (IFU flag, "
         "sampling switches, interpolated axes, LOS assignment, likelihood type) x N in {2,3,5,8}; exactly one "
-        "scatter non-zero per case (plus all-zero and several-non-zero cases); distinct = (scenario, N, applicable)")
+        "scatter non-zero per case (plus all-zero, several-non-zero and re-draw cases: IFU lambda + truncated gamma_in / "
+        "log_m2l near a grid edge); distinct = (scenario, N, applicable)")
 ASSUMPTIONS = [
     "numpy's generator realises the declared laws (law of np.random.normal / genextreme.rvs is not modelled; C09)",
     "exp underflow/overflow is float behaviour outside the ‚Ñù theorems (finite/positive filter is modelled and compared)",
@@ -26,9 +27,12 @@ LEVEL_TEXT = ("Lean theorems over ‚Ñù: the marginalised value is log((Œ£ exp l·µ
               "same arguments to the data likelihood and the same prior term (determinism of the whole draw monad under "
               "zero applicable scatter, for all configurations); on an abstract probability space the N-draw mean is "
               "unbiased for the population integral and its variance is Var[L]/N for pairwise independent identically "
-              "distributed draws.  The model is run against the real code for every scatter x flagging scenario; the "
+              "distributed draws; every np.random.normal request of every evaluation, re-draws of truncated populations "
+              "included and for every recursion depth, has (loc, scale) among the declared populations of this lens "
+              "(draws_from_declared: induction over the re-draw recursion and over the N evaluations).  The model is run against the real code for every scatter x flagging scenario; the "
               "statement (N evaluations and seed-dependence iff an applicable scatter is non-zero; value = log-mean-exp of "
-              "the recorded single-draw values) is evaluated on LensLikelihood.hyper_param_likelihood.")
+              "the recorded single-draw values; every recorded request is from a declared population) is evaluated on "
+              "LensLikelihood.hyper_param_likelihood.")
 LEVEL_NOTE = ("partial: that numpy draws follow the declared laws and are independent is assumed; the converse of soundness "
               "(non-sharp ‚áí value depends on the stream) and convergence are validated by the oracle only; float underflow "
               "outside ‚Ñù")
@@ -389,6 +393,10 @@ def run(ctx, res):
         lines.append({"op": "Lens.hyper", "cfg": lc.encode_cfg(lens, case["ltype"]), "hyper": lc.encode_hyper(case["hyper"]),
                       "singles": [f2b(x) for x in r1.singles]})
         meta.append(("hyper", case, o1, r1))
+        # the model's declared populations (theorem draws_from_declared) vs. the harness' statement of them and vs.
+        # every request the implementation made
+        lines.append({"op": "Lens.declared", "cfg": lc.encode_cfg(lens, case["ltype"]), "hyper": lc.encode_hyper(case["hyper"])})
+        meta.append(("declared", case, o1, r1))
         # first single evaluation: requests (loc, scale) and routed arguments under scatter
         for si, (n0, n1, g0, g1, k0, d0) in enumerate(r1.spans[:ctx.n(3, 12)]):
             lines.append({"op": "Lens.single", "cfg": lc.encode_cfg(lens, case["ltype"]), "hyper": lc.encode_hyper(case["hyper"]),
@@ -407,6 +415,17 @@ def run(ctx, res):
             res.disagree("%s: model error %s, implementation returned %r" % (kind, o["err"], o1.get("value")), cj)
             continue
         m = o["ok"]
+        if kind == "declared":
+            mp = [(b2f(a), b2f(b)) for a, b in m["pairs"]]
+            hp = [(l, sg) for _, l, sg in lc.declared_pairs(case["cfg"], case["hyper"])]
+
+            def inside(p, ps):
+                return any(close(p[0], q[0], 1e-12) and close(p[1], q[1], 1e-12) for q in ps)
+            if not all(inside(p, hp) for p in mp) or not all(inside(p, mp) for p in hp):
+                res.disagree("declared populations: model %s, harness statement %s" % (mp, hp), cj)
+            elif not all(inside((a, b), mp) for a, b, _ in r1.normals):
+                res.disagree("a request of the implementation is not among the model's declared populations %s" % (mp,), cj)
+            continue
         if kind == "hyper":
             n = case["cfg"]["num_distribution_draws"]
             impl_sharp = len(r1.singles) == 1 and n != 1
